@@ -116,7 +116,7 @@ def run(ctx, rep):
                 why = "named exception: LAY starting-price re-size (conservation on the total only)"
             rep.check(good and bounded, "R2", key(f, s, "bounded by the remainder"), f, s,
                       why if (good and bounded) else "a write that is not `+= remainder` can overdraw the order")
-    rep.floor("R2", "writes to the cancelled / lapsed / voided buckets", n_w, 18)
+    rep.floor("R2", "writes to the cancelled / lapsed / voided buckets", n_w, 10)
     # the LAY starting-price re-size: whenever the stake is re-derived from the liability, `cancelled`
     # absorbs the (possibly negative) difference on EVERY path to the fill - otherwise the total breaks
     sp = prog.own_method("SimulatedOrder", "_process_sp")
@@ -162,8 +162,8 @@ def run(ctx, rep):
             pre_c = [e for e in pre if utext(e.ast.target) == "self.size_cancelled"]
             rep.check(bool(pre_c), "R3", key(pl, c, "fill-or-kill return cancels the remainder") + " @" + ";".join(
                 "%s=%s" % g for g in gs if "price" in g[0] or "available_size" in g[0] or "side" in g[0]), pl, c)
-    rep.floor("R3", "FAILURE returns in SimulatedOrder.place", n_fail, 7)
-    rep.floor("R3", "fill-or-kill returns in SimulatedOrder.place", n_fok, 2)
+    rep.floor("R3", "FAILURE returns in SimulatedOrder.place", n_fail, 3)
+    rep.floor("R3", "fill-or-kill returns in SimulatedOrder.place", n_fok, 1)
     # suspension lapse
     ca = prog.own_method("SimulatedOrder", "__call__")
     cfgc = ctx.cfg(ca)
